@@ -89,11 +89,16 @@ func evalC05(c *Ctx, cs *Case) {
 		c.Violation(cs, clause, sig, det)
 		cs.Entry = ""
 	}
-	for _, bi := range branches {
+	for bn, bi := range branches {
 		bo := BranchOptions(bi)
+		// options that are meaningless for a walk must not change what is visited
+		if stray, _ := strayOptions("walk", int(cs.Seed%5)+bn); len(stray) > 0 {
+			bo = append(append([]gtree.Option{}, bo...), stray...)
+			c.Count("walks_with_stray_options", 1)
+		}
 		want := model.Rows(merged, BranchTuples[bi])
-		// text lines of the same options
-		to := OutputMD(doc, bo...)
+		// text lines of the same branch options (without the stray ones, which would re-encode it)
+		to := OutputMD(doc, BranchOptions(bi)...)
 		lines := strings.Split(strings.TrimSuffix(string(to.Out), "\n"), "\n")
 		// --- WalkFromMarkdown and alias
 		for ai, name := range []string{"WalkFromMarkdown", "Walk(alias)"} {
